@@ -145,6 +145,11 @@ TRollback ==
   /\ (P("C07") \/ P("C03")) =>
        /\ FSame(Ev.tau, pinfo.tau) /\ FSame(Ev.kappa, pinfo.kappa)
        /\ (Ev.digest # "" /\ pinfo.digest # "") => Ev.digest = pinfo.digest
+  \* every scalar of info that describes the iterate is put back with it (whatever the property under test: the last
+  \* printed row, the Almost* re-test and the returned figures all read these fields)
+  /\ FSame(Ev.cost_p, pinfo.cost_p) /\ FSame(Ev.cost_d, pinfo.cost_d)
+  /\ FSame(Ev.res_p, pinfo.res_p) /\ FSame(Ev.res_d, pinfo.res_d)
+  /\ FSame(Ev.gap_abs, pinfo.gap_abs) /\ FSame(Ev.gap_rel, pinfo.gap_rel)
   /\ info' = [info EXCEPT !.cost_p = pinfo.cost_p, !.cost_d = pinfo.cost_d,
                           !.res_p = pinfo.res_p, !.res_d = pinfo.res_d,
                           !.gap_abs = pinfo.gap_abs, !.gap_rel = pinfo.gap_rel]
